@@ -279,18 +279,18 @@ end translate
 /-! ## Merging -/
 
 /-- **a merge is the sum of the embeddings**, for any number of fields of any shapes and offsets — also wholly
-negative extents, where `boundary`'s `rmax = 0` start only enlarges the box with zeros. (`_merge` of array fields always answers: `merge_spec`.) -/
+negative extents (the merged box is the exact bounding box there too: `boundary_is_bbox`). (`_merge` of array fields always answers: `merge_spec`.) -/
 theorem merge_emb {K : Type} [AddZeroClass K] (fs : List (Fld K)) (hne : fs ≠ [])
     (hpos : ∀ f ∈ fs, 0 < f.arr.s0 ∧ 0 < f.arr.s1) (p : Fld K) (h : mergeL fs = some p) (r c : Int) :
     p.emb r c = sumList fs (fun f => f.emb r c) :=
   mergeL_emb fs hne hpos p h r c
 
-/-- non-vacuity of `merge_emb` on **wholly negative extents**: the merge exists, its box reaches up to row/column 0
-(`boundary`'s initial `rmax = cmax = 0`), and it still embeds as the sum -/
+/-- non-vacuity of `merge_emb` on **wholly negative extents**: the merge exists, its box is the bounding box of the two
+extents (it no longer reaches up to row/column 0), and it embeds as the sum -/
 example : (∀ f ∈ [Ex.N1, Ex.N2], 0 < f.arr.s0 ∧ 0 < f.arr.s1) ∧
     Ex.N1.extent = ⟨-6, -5, -6, -5⟩ ∧ Ex.N2.extent = ⟨-8, -8, -4, -2⟩ ∧
     (mergeL [Ex.N1, Ex.N2]).map (fun p => (p.extent, p.emb (-5) (-5), p.emb (-8) (-3), p.emb 0 0)) =
-      some (⟨-8, 0, -6, 0⟩, Ex.N1.emb (-5) (-5) + Ex.N2.emb (-5) (-5), Ex.N1.emb (-8) (-3) + Ex.N2.emb (-8) (-3), 0) := by
+      some (⟨-8, -5, -6, -2⟩, Ex.N1.emb (-5) (-5) + Ex.N2.emb (-5) (-5), Ex.N1.emb (-8) (-3) + Ex.N2.emb (-8) (-3), 0) := by
   decide
 /-- **`_merge` of array fields is total and is the sum**: for every non-empty collection of positive-shape fields there is a
 merged field, it occupies the `boundary` box and embeds as the sum of its members — including (1, 1) arrays on the origin
@@ -326,59 +326,62 @@ example : Gen.mergeSlice (-8) 0 (-6) 0 (-6) (-5) (-6) (-5) = ((2, 4), (0, 2)) :=
 
 /-! ## Bounding box (`lentil.field.boundary`) -/
 
-/-- `boundary` in general: the box contains every extent, and each side is the tightest such bound **except** for the two
-caveats of the implementation's initial value `(sys.maxsize, 0, sys.maxsize, 0)` (generated `Gen.boundaryInit`):
-`rmax`/`cmax` are never below 0 and `rmin`/`cmin` never above `sys.maxsize = 2^63 − 1`. Each side is therefore either
-attained by a member or stuck at its initial value. -/
+/-- `boundary` for any list of extents: the box contains every extent, and each side is either attained by a member or still at
+its initial value (`Gen.boundaryInit` = `(sys.maxsize, −sys.maxsize, sys.maxsize, −sys.maxsize)`, `sys.maxsize = 2^63 − 1`) —
+which happens only for the empty list or for extents beyond ±`sys.maxsize` -/
 theorem boundary_is_bbox_general (es : List Extent) :
     (∀ e ∈ es, (boundaryL es).rmin ≤ e.rmin ∧ e.rmax ≤ (boundaryL es).rmax ∧
                (boundaryL es).cmin ≤ e.cmin ∧ e.cmax ≤ (boundaryL es).cmax) ∧
-    ((boundaryL es).rmin ≤ 9223372036854775807 ∧ 0 ≤ (boundaryL es).rmax ∧
-     (boundaryL es).cmin ≤ 9223372036854775807 ∧ 0 ≤ (boundaryL es).cmax) ∧
+    ((boundaryL es).rmin ≤ 9223372036854775807 ∧ -9223372036854775807 ≤ (boundaryL es).rmax ∧
+     (boundaryL es).cmin ≤ 9223372036854775807 ∧ -9223372036854775807 ≤ (boundaryL es).cmax) ∧
     ((boundaryL es).rmin = 9223372036854775807 ∨ ∃ e ∈ es, e.rmin = (boundaryL es).rmin) ∧
-    ((boundaryL es).rmax = 0 ∨ ∃ e ∈ es, e.rmax = (boundaryL es).rmax) ∧
+    ((boundaryL es).rmax = -9223372036854775807 ∨ ∃ e ∈ es, e.rmax = (boundaryL es).rmax) ∧
     ((boundaryL es).cmin = 9223372036854775807 ∨ ∃ e ∈ es, e.cmin = (boundaryL es).cmin) ∧
-    ((boundaryL es).cmax = 0 ∨ ∃ e ∈ es, e.cmax = (boundaryL es).cmax) := by
+    ((boundaryL es).cmax = -9223372036854775807 ∨ ∃ e ∈ es, e.cmax = (boundaryL es).cmax) := by
   rw [boundaryL_eq, boundaryInit_eq]
   refine ⟨fun e he => fold_contains es _ e he, ?_, fold_attained es _⟩
-  have := fold_mono es ⟨9223372036854775807, 0, 9223372036854775807, 0⟩
+  have := fold_mono es ⟨9223372036854775807, -9223372036854775807, 9223372036854775807, -9223372036854775807⟩
   simp only at this
   exact ⟨this.1, this.2.1, this.2.2.1, this.2.2.2⟩
 
-/-- **`boundary` is exactly the bounding box** `(min rmin, max rmax, min cmin, max cmax)` (`IsBBox`: contains every
-member, every side attained by a member) when some member reaches row ≥ 0 and some member reaches column ≥ 0 on the max
-side, and some member starts at or below `sys.maxsize` on each min side. Without the first two hypotheses the statement
-is false (wholly negative extents: `rmax = 0`), see `boundary_is_bbox_general` and the `example` below it. -/
-theorem boundary_is_bbox (es : List Extent)
-    (hr : ∃ e ∈ es, 0 ≤ e.rmax) (hc : ∃ e ∈ es, 0 ≤ e.cmax)
-    (hr' : ∃ e ∈ es, e.rmin ≤ 9223372036854775807) (hc' : ∃ e ∈ es, e.cmin ≤ 9223372036854775807) :
+/-- **`boundary` is exactly the bounding box of the pixel sets** `(min rmin, max rmax, min cmin, max cmax)` (`IsBBox`: contains
+every member, every side attained by a member), for **every non-empty collection** of extents within ±`sys.maxsize` — wherever
+the fields lie: straddling the origin, wholly positive, wholly negative (before the /repo fix of the initial value the max
+sides never went below 0, so `overlap` could report fields that share no pixel as overlapping) -/
+theorem boundary_is_bbox (es : List Extent) (hne : es ≠ [])
+    (hM : ∀ e ∈ es, e.rmin ≤ 9223372036854775807 ∧ -9223372036854775807 ≤ e.rmax ∧
+                    e.cmin ≤ 9223372036854775807 ∧ -9223372036854775807 ≤ e.cmax) :
     IsBBox (boundaryL es) es := by
   obtain ⟨hcont, _, a1, a2, a3, a4⟩ := boundary_is_bbox_general es
+  obtain ⟨e, he⟩ := List.exists_mem_of_ne_nil es hne
+  have hc := hcont e he
+  have hm := hM e he
   refine ⟨hcont, ?_, ?_, ?_, ?_⟩
   · rcases a1 with h | h
-    · obtain ⟨e, he, h1⟩ := hr'; exact ⟨e, he, by have := (hcont e he).1; omega⟩
+    · exact ⟨e, he, by omega⟩
     · exact h
   · rcases a2 with h | h
-    · obtain ⟨e, he, h1⟩ := hr; exact ⟨e, he, by have := (hcont e he).2.1; omega⟩
+    · exact ⟨e, he, by omega⟩
     · exact h
   · rcases a3 with h | h
-    · obtain ⟨e, he, h1⟩ := hc'; exact ⟨e, he, by have := (hcont e he).2.2.1; omega⟩
+    · exact ⟨e, he, by omega⟩
     · exact h
   · rcases a4 with h | h
-    · obtain ⟨e, he, h1⟩ := hc; exact ⟨e, he, by have := (hcont e he).2.2.2; omega⟩
+    · exact ⟨e, he, by omega⟩
     · exact h
 
 /-- non-vacuity: two extents straddling the origin; the box is their exact bounding box -/
 example : boundaryL [⟨-3, 1, 2, 4⟩, ⟨0, 2, -5, 0⟩] = ⟨-3, 2, -5, 4⟩ := by decide
-/-- the caveat is real: for wholly negative extents `boundary` reaches up to row/column 0 -/
-example : boundaryL [⟨-9, -7, -4, -3⟩, ⟨-6, -5, -8, -6⟩] = ⟨-9, 0, -8, 0⟩ := by decide
+/-- wholly negative extents: the exact bounding box too (witness of the fixed defect: it used to be ⟨-9, 0, -8, 0⟩) -/
+example : boundaryL [⟨-9, -7, -4, -3⟩, ⟨-6, -5, -8, -6⟩] = ⟨-9, -5, -8, -3⟩ := by decide
 
 /-! ## Reduce -/
 section reduce
 variable {K : Type}
 
-/-- **the model of `_disjoint` terminates with fuel = number of groups** (every step removes one group; the Python function
-makes one recursive call per step, so it needs as many stack frames): the result is a fixed
+/-- **`_disjoint` terminates within as many merge steps as there are groups** (every step removes one group; the Python
+function is a `while` loop around the pair scan — one model step per iteration, `disjoint_succ_some` — so it needs no stack
+and has no bound on the number of fields): with fuel = number of groups the result is a fixed
 point — no pair of groups with intersecting cached extents is left -/
 theorem reduce_terminates (fuel : Nat) (gs : List (Group K)) (h : gs.length ≤ fuel) :
     firstPair (disjoint fuel gs) = none :=
@@ -400,10 +403,13 @@ theorem reduce_fixed_point_iff (gs : List (Group K)) :
 example : intersect ⟨0, 2, 0, 2⟩ ⟨2, 4, 0, 2⟩ = true ∧ intersect ⟨0, 2, 0, 2⟩ ⟨3, 5, 0, 2⟩ = false ∧
     intersect ⟨0, 2, 0, 2⟩ ⟨2, 4, 2, 4⟩ = true := by decide
 
-/-- **the merge step of `_disjoint`, as recognised in the source** (`Gen.disjointStep`: which group of the pair `(m, n)` is
-kept, whose fields are appended, whose extent is recomputed with `boundary`, which is popped; m = 0, n = 1): keep `m`,
-append `n`'s fields, recompute `m`, pop `n` — exactly the step of the model (`(gs.set m (mergeGroups gm gk)).eraseIdx k`,
-`disjoint_succ_some`), scanned in `combinations` order and restarted after each merge -/
+/-- **`_disjoint`, as recognised in the source** (`Gen.disjointStep`; the recogniser accepts exactly the loop
+`merged = True; while merged: merged = False; for m, n in combinations(range(len(fields)), 2): if <extents intersect>:
+<step>; merged = True; break` followed by `return fields`): scan the pairs in `combinations` order, apply the step to the
+first intersecting pair, rescan the shortened list, stop when a scan finds none. The step constants say which group of the
+pair `(m, n)` is kept, whose fields are appended, whose extent is recomputed with `boundary`, which is popped (m = 0, n = 1):
+keep `m`, append `n`'s fields, recompute `m`, pop `n` — the step of the model (`disjoint_succ_some`); the loop's iterations
+are the model's fuel steps (`reduce_terminates`: at most one per group) and its exit test is `reduce_fixed_point_iff` -/
 theorem disjoint_step_spec : Gen.disjointStep = (0, 1, 0, 1) := rfl
 
 /-- the group invariant (`Group.wf`: member fields of positive shape; a singleton group caches its field's extent; a
@@ -489,9 +495,8 @@ theorem reduce_total (fs : List (Fld K)) (hpos : ∀ f ∈ fs, 0 < f.arr.s0 ∧ 
   rw [sumList_eq_sum, sumList_eq_sum, hemb r c]
   exact (disjoint_total (fun f => f.emb r c) fs.length _).trans (single_total _ fs)
 
-/-- **totality of the model of `reduce`**: every element of `reduce fs` is a field, for every collection of array fields (since
-the /repo fix of `_merge_shape` no merge can raise). Of the Python code this holds up to the interpreter's recursion limit:
-`_disjoint` makes one recursive call per merge (≈ 990 merges; harness ASSUMPTIONS). -/
+/-- **totality of `reduce`**: every element of `reduce fs` is a field, for every collection of array fields of any size (since
+the /repo fixes no merge can raise and `_disjoint` is a loop: no recursion limit applies) -/
 theorem reduce_defined (fs : List (Fld K)) : ∃ out : List (Fld K), reduce fs = out.map some :=
   exists_eq_map_some _ (reduce_isSome fs)
 
@@ -654,6 +659,12 @@ theorem overlap_many_spec [AddCommMonoid K] (fs : List (Fld K)) (hn : fs.length 
       rw [← ht]; simp [sumList]
   · intro h
     rw [hlen]; simp only [decide_eq_false_iff_not, not_le] at h; omega
+
+/-- witness of the fixed `boundary` defect: two overlapping fields with wholly negative extents and a one-element field at
+(−1, −1) that shares no pixel with them — `overlap` is False and `reduce` keeps two fields (the merged box used to reach up
+to row/column 0 and swallow the third) -/
+example : overlapL [Ex.N1, (⟨⟨2, 2, fun _ _ => (1 : Int)⟩, -6, -6⟩ : Fld Int), ⟨⟨1, 1, fun _ _ => 1⟩, -1, -1⟩] = false ∧
+    (reduce [Ex.N1, (⟨⟨2, 2, fun _ _ => (1 : Int)⟩, -6, -6⟩ : Fld Int), ⟨⟨1, 1, fun _ _ => 1⟩, -1, -1⟩]).length = 2 := by decide
 
 example : overlapL [Ex.A, Ex.B] = true ∧ overlapL [Ex.A, Ex.C] = false ∧ overlapL [Ex.A, Ex.B, Ex.D] = true ∧
     overlapL [Ex.A, Ex.C, Ex.B] = false ∧ overlapL [Ex.A] = true := by decide
